@@ -8,6 +8,7 @@
 package main
 
 import (
+	"bytes"
 	"context"
 	"crypto/sha256"
 	"fmt"
@@ -80,6 +81,65 @@ func replayAfterAcceptance(run *ev.Run, unit int64, r *rand.Rand) {
 			pool = append(pool, mat{l, cp, "replay_submitted_bytes"}, mat{l, ret, "replay_cosigned_bytes"})
 		}
 		snap := rn.Snap()
+		// the witness's own cosigned answer, handed back to the SAME log with the log's signature dropped or damaged:
+		// the witness's cosignature says nothing about who signed; the log's own signature has to be checked every time
+		for _, m := range pool {
+			if m.kind != "replay_submitted_bytes" {
+				continue
+			}
+			var ret []byte
+			for _, c := range pool {
+				if c.from == m.from && c.kind == "replay_cosigned_bytes" && bytes.HasPrefix(c.raw, m.raw[:bytes.Index(m.raw, []byte("\n\n"))+2]) {
+					ret = c.raw
+				}
+			}
+			if ret == nil {
+				continue
+			}
+			logSigs := map[string]bool{}
+			for _, ln := range strings.Split(string(m.raw[bytes.Index(m.raw, []byte("\n\n"))+2:]), "\n") {
+				if ln != "" {
+					logSigs[ln] = true
+				}
+			}
+			var dropped, damaged []string
+			for _, ln := range strings.SplitAfter(string(ret), "\n") {
+				if t := strings.TrimSuffix(ln, "\n"); logSigs[t] {
+					if len(t) > 24 {
+						c := byte('A')
+						if t[len(t)-12] == 'A' {
+							c = 'B'
+						}
+						damaged = append(damaged, t[:len(t)-12]+string(c)+t[len(t)-11:]+"\n")
+					}
+					continue
+				}
+				dropped = append(dropped, ln)
+				damaged = append(damaged, ln)
+			}
+			for vi, v := range [][]byte{[]byte(strings.Join(dropped, "")), []byte(strings.Join(damaged, ""))} {
+				o := m.from
+				auth, _ := o.Judge(v)
+				if auth {
+					continue
+				}
+				for _, old := range []uint64{0, size[o]} {
+					ret2, err := rn.W.Update(ctx, o.ID, old, v, nil)
+					after := rn.Snap()
+					run.Count("evaluations")
+					run.Count("own_cosignature_without_log_signature")
+					h := sha256.Sum256(append([]byte(o.ID+"\x00"), v...))
+					run.Distinct("nontrivial", string(h[:10]))
+					changed := !after.Equal(snap)
+					if err == nil || changed {
+						run.Violate(fmt.Sprintf("nonauthentic_accepted;kind=own_cosignature_log_signature_%s", []string{"dropped", "damaged"}[vi]), fmt.Sprintf("the witness's cosigned answer for log %q, log signature %s, was accepted/stored for that log: err=%v changed=%v", o.Origin, []string{"dropped", "damaged"}[vi], err, changed), unit, map[string]any{"cp": string(v), "ret": string(ret2), "store": st.Kind})
+						return
+					}
+					run.Count("replay_after_acceptance_refused")
+					snap = after
+				}
+			}
+		}
 		for _, m := range pool {
 			for _, o := range u.Logs {
 				if o == m.from {
